@@ -585,17 +585,8 @@ func (interp *Interpreter) cfg(root *node, sc *scope, importPath, pkgName string
 		case ifStmt0, ifStmt1, ifStmt2, ifStmt3:
 			sc = sc.pushBloc()
 
-		case switchStmt, typeSwitch:
-			// Make sure default clause is in last position.
-			c := n.lastChild().child
-			if i, l := getDefault(n), len(c)-1; i >= 0 && i != l {
-				c[i], c[l] = c[l], c[i]
-			}
-			sc = sc.pushBloc()
-			sc.loop = n
-
-		case switchIfStmt:
-			// The clauses stay in source order: conditions are tested in that order
+		case switchStmt, switchIfStmt, typeSwitch:
+			// The clauses stay in source order: they are tested in that order
 			// and fallthrough goes to the textually next clause.
 			sc = sc.pushBloc()
 			sc.loop = n
@@ -2107,7 +2098,12 @@ func (interp *Interpreter) cfg(root *node, sc *scope, importPath, pkgName string
 				// Switch is empty
 				break
 			}
-			// Chain case clauses.
+			// The default clause, wherever it is, is taken when no other clause matches.
+			nextTest := n
+			if i := getDefault(n); i >= 0 {
+				nextTest = clauses[i]
+			}
+			// Chain case clauses in reverse order so the next test is already resolved when used.
 			for i := l - 1; i >= 0; i-- {
 				c := clauses[i]
 				if len(c.child) == 0 {
@@ -2132,17 +2128,13 @@ func (interp *Interpreter) cfg(root *node, sc *scope, importPath, pkgName string
 					}
 				}
 
-				if i == l-1 {
-					setFNext(clauses[i], n)
-					continue
-				}
-				if len(clauses[i+1].child) > 1 {
-					setFNext(c, clauses[i+1].start)
-				} else {
-					setFNext(c, clauses[i+1])
+				if len(c.child) > 1 {
+					// A failed clause goes to the next clause with a test, in source order.
+					setFNext(c, nextTest)
+					nextTest = c.start
 				}
 			}
-			sbn.start = clauses[0].start
+			sbn.start = nextTest
 			n.start = n.child[0].start
 			if n.kind == typeSwitch {
 				// Handle the typeSwitch init (the type assert expression).
